@@ -189,6 +189,8 @@ def gen_C12(g, tier):
         cs.append(Case('o.c12.circ %d %s' % (n, hexes(ang)), 'orc', 'circular-all-orders', check=small_hex_check(1e-9)))
         if n >= 2:
             k = g.randint(1, n - 1)
+            cs.append(Case('o.c12.rcopy %d %d %s' % (k, n - k, hexes(ang)), 'orc', 'circular-copy-assignment-after-query'))
+            cs.append(Case('o.c12.rcopy %d 0 %s' % (n, hexes(ang)), 'orc', 'circular-copy-assignment-after-query'))
             cs.append(Case('o.c12.rassign %d %d %s' % (n, k, hexes(ang)), 'orc', 'circular-assignment-forgets-history'))
     return cs
 
